@@ -1,0 +1,102 @@
+//! Verification hooks (feature `verif-hooks`).
+//!
+//! Additive instrumentation for the external model-checking harness. Nothing in this
+//! module is compiled unless the `verif-hooks` cargo feature is enabled, and nothing
+//! here changes behaviour unless the harness explicitly arms an override.
+
+use std::cell::RefCell;
+
+use mdk_storage_traits::{GroupId, MdkStorageProvider};
+use nostr::{Event, EventBuilder, EventId, Keys, Kind, Tag, Timestamp};
+
+use crate::MDK;
+use crate::epoch_snapshots::EpochSnapshotManager;
+use crate::error::Error;
+use crate::extension::NostrGroupDataExtension;
+
+/// Override for the next outgoing kind-445 wrapper built on this thread.
+#[derive(Debug, Clone, Copy)]
+pub struct WrapperOverride {
+    /// `created_at` of the wrapper event (seconds)
+    pub created_at: u64,
+    /// If set, the ephemeral key is re-drawn until the first hex nibble of the event id equals this value
+    pub id_first_nibble: Option<u8>,
+}
+
+thread_local! {
+    static WRAPPER_OVERRIDE: RefCell<Option<WrapperOverride>> = const { RefCell::new(None) };
+}
+
+/// Arm (or clear) the wrapper override for this thread. It stays armed until cleared.
+pub fn set_wrapper_override(o: Option<WrapperOverride>) {
+    WRAPPER_OVERRIDE.with(|c| *c.borrow_mut() = o);
+}
+
+pub(crate) fn build_overridden_wrapper(content: &str, tag: &Tag) -> Result<Option<Event>, Error> {
+    let Some(o) = WRAPPER_OVERRIDE.with(|c| *c.borrow()) else {
+        return Ok(None);
+    };
+    loop {
+        let keys = Keys::generate();
+        let event = EventBuilder::new(Kind::MlsGroupMessage, content)
+            .tag(tag.clone())
+            .custom_created_at(Timestamp::from_secs(o.created_at))
+            .sign_with_keys(&keys)?;
+        match o.id_first_nibble {
+            Some(n) if (event.id.as_bytes()[0] >> 4) != (n & 0x0f) => continue,
+            _ => return Ok(Some(event)),
+        }
+    }
+}
+
+/// One entry of the in-memory rollback-snapshot queue, as seen by the harness.
+#[derive(Debug, Clone, PartialEq, Eq, PartialOrd, Ord, Hash)]
+pub struct SnapshotQueueEntry {
+    /// Epoch the snapshot was taken at (state before the commit)
+    pub epoch: u64,
+    /// Wrapper id of the commit applied on top of the snapshot
+    pub applied_commit_id: EventId,
+    /// Wrapper timestamp of that commit (0 for entries hydrated after a restart)
+    pub applied_commit_ts: u64,
+    /// Storage-level name
+    pub snapshot_name: String,
+}
+
+impl<Storage> MDK<Storage>
+where
+    Storage: MdkStorageProvider,
+{
+    /// Build a second client over `storage` that shares nothing with `self` but starts with a
+    /// copy of its configuration, callback and in-memory snapshot-manager state.
+    pub fn verif_fork(&self, storage: Storage) -> MDK<Storage> {
+        let mut forked = MDK::builder(storage).with_config(self.config.clone());
+        if let Some(cb) = &self.callback {
+            forked = forked.with_callback(cb.clone());
+        }
+        let mut forked = forked.build();
+        forked.epoch_snapshots = std::sync::Arc::new(self.epoch_snapshots.verif_clone());
+        forked
+    }
+
+    /// The manager's queue for `group_id`, oldest first.
+    pub fn verif_snapshot_queue(&self, group_id: &GroupId) -> Vec<SnapshotQueueEntry> {
+        self.epoch_snapshots.verif_queue(group_id)
+    }
+}
+
+impl EpochSnapshotManager {
+    pub(crate) fn verif_clone(&self) -> Self {
+        self.verif_clone_impl()
+    }
+}
+
+/// Serialise a group-data extension exactly as `update_group_data` / `create_group` do.
+pub fn ext_encode(ext: &NostrGroupDataExtension) -> Result<Vec<u8>, Error> {
+    use tls_codec::Serialize as _;
+    Ok(ext.as_raw().tls_serialize_detached()?)
+}
+
+/// Parse a group-data extension exactly as `from_group` / `from_group_context` do.
+pub fn ext_decode(bytes: &[u8]) -> Result<NostrGroupDataExtension, Error> {
+    NostrGroupDataExtension::verif_deserialize_bytes(bytes)
+}
